@@ -87,6 +87,12 @@ func checkC04(ctx *Ctx, c *Case) error {
 			ctx.Label("empty-non-nil containers")
 		}
 	}
+	if injected {
+		// generic algorithms must cope with nil elements as well (no panic)
+		cl := proto.Clone(p)
+		_ = proto.Equal(p, cl)
+		_ = proto.Equal(p, p)
+	}
 	detMode := c.arg("mode") == "deterministic"
 	opts := proto.MarshalOptions{Deterministic: detMode}
 	size := opts.Size(p)
